@@ -592,6 +592,9 @@ func checkC12(w *World, r *Report) {
 	checkExportVerbatim(w, r, "C12.exportverbatim", flatten(ro.EXPORT))
 	r.Rule("C12.importall", "P5", "every state write on a module's InitGenesis tree is executed unconditionally: at every level of the call chain it lies on every completing path of its function, every iteration of a loop around it passes it and the loop is never left early; only a test for an empty or absent list in front of the loop over that list, and exits that abort the import, may go round it", 8)
 	importAllRule(w, r, "C12.importall")
+	if vg := w.Func("x/cfevesting.ValidateAccountsOnGenesis"); vg != nil {
+		genesisDenomRule(w, r, "C12.importall", vg)
+	}
 	// ---------- C12.getall ----------
 	checkGetAll(w, r, "C12.getall", append(append(flatten(ro.EXPORT), flatten(ro.BLK)...), flatten(ro.QRY)...))
 	// ---------- C12.accepts ----------
